@@ -9,7 +9,8 @@ task steps, immediate answers and queue insertions offered by the query handler 
 registered at that instant, any route, any draw), queue timer firings at any time, unregister-all, close.
 The theorems are about the **repaired** code (D5: queued answers of a withdrawn service are dropped; D6: an
 announcement task stops when its info is no longer the registered one); `GenFacts/Goodbye.lean` fails to build on
-a tree without the repairs.  `lower` is `str.lower`, arbitrary.  Numbers (125, 3) are those of the English statement. -/
+a tree without the repairs.  `lower` is `str.lower`, arbitrary.  Numbers (125, 3) are those of the English statement; in the code
+they are the range and the interval of the two loops that send goodbyes (`C08_goodbye_loops`). -/
 namespace Zc.Goodbye
 open Zc Zc.Register Zc.GenFacts.Goodbye
 
@@ -18,6 +19,20 @@ variable (lower : String → String)
 /-- the goodbye datagram of `s`: TTL-0 copies of PTR, SRV, TXT, and of the addresses and the NSEC record unless the
 host name is shared -/
 def goodbyePkt (s : Svc) (shared : Bool) : Pkt := broadcastPkt s (some 0) (!shared)
+
+/-- the count and the spacing of the goodbyes are those of the code that sends them: `_async_send_repeatedly` (goodbyes of
+`async_unregister_service` since the D27 repair) and the loop of `async_unregister_all_services` (close / unregister-all) iterate three
+times, sleep before every transmission but the first, 125 ms; and they agree with the parameters (`broadcast_count`, `unregisterTime`) the
+model's goodbye task (`Task.step`) and close sequence (`allStep`) are written with, so every theorem below speaks about those loops.
+(Third review: the count used to be tied to `_async_broadcast_service` only, which no longer sends goodbyes.) -/
+theorem C08_goodbye_loops :
+    Gen.Register.goodbye_count = 3 ∧ Gen.Register.goodbye_all_count = 3 ∧ Gen.Register.goodbye_interval = 125 ∧
+    Gen.Register.goodbye_all_interval = 125 ∧
+    Gen.Register.goodbye_count = Gen.Register.broadcast_count ∧ Gen.Register.goodbye_all_count = Gen.Register.broadcast_count ∧
+    (∀ i, Gen.Register.goodbye_sleeps i = Gen.Register.broadcast_sleeps i) ∧ (∀ i, Gen.Register.goodbye_all_sleeps i = Gen.Register.broadcast_sleeps i) ∧
+    Gen.Register.goodbye_interval = Gen.unregisterTime ∧ Gen.Register.goodbye_all_interval = Gen.unregisterTime :=
+  ⟨goodbye_loops_eq.1, goodbye_loops_eq.2.1, goodbye_loops_eq.2.2.1, goodbye_loops_eq.2.2.2,
+   goodbye_loops.1, goodbye_loops.2.1, goodbye_loops.2.2.1, goodbye_loops.2.2.2.1, goodbye_loops.2.2.2.2.1, goodbye_loops.2.2.2.2.2⟩
 
 /-- **Goodbyes.**  `async_unregister_service` at `now` removes the service, sends nothing itself and starts a task whose
 three steps — at `now`, `now + 125`, `now + 250` — each multicast the goodbye datagram: TTL-0 copies of PTR, SRV and TXT,
@@ -44,17 +59,20 @@ theorem C08_goodbyes (h h' : Host) (s : Svc) (oid : Nat) (now : Int) (out : List
 
 /-- **Goodbyes, as a run.**  (`C08_goodbyes` speaks about the task the block creates; this is what a *run* puts on the wire.)
 Unregister `s` on a host that is not closed, then the three steps of the task — due at `now`, `now + 125`, `now + 250` — with any
-enabled blocks before and between them that are quiet for the object (`Block.quietFor`: queries answered, queue insertions and timers,
-other services registered, updated, unregistered, their tasks, unregister-all — everything except `_close`, a second unregister of the
-same object and foreign steps of its goodbye tasks): the goodbye datagram of `s` — TTL-0 PTR, SRV, TXT, and every address and the NSEC
-record iff no still-registered service uses the host name (contents: `C08_goodbyes`) — is multicast by each of the three steps.
-`_partial`, two named hypotheses, both exactly the input class of a known finding:
-* `hm*` exclude `_close` before the third goodbye — `C08:goodbyes-cut-by-close` (`async_close` does not wait for a goodbye task that the
-  application did not await; `done` makes `async_send` a no-op);
-* the run is a run of the *machine*, in which an object is never mutated under its tasks; the library itself does that when the same
-  `ServiceInfo` is handed to `async_register_service` again at once — `C08:reused-info-renamed-before-goodbye` (D27, repaired): over the extended machine `Host.xrun` the full statement is
-  `C08_goodbyes_run_full` (refuted for the code before the repair: `…_refuted_without_snapshot`).
-That the three steps *are* executed at their due instants is the loop axiom (DESIGN §4), checked on every replayed trace. -/
+enabled blocks before and between them that are quiet for the object (`Block.quietFor`): the goodbye datagram of `s` — TTL-0 PTR, SRV,
+TXT, and every address and the NSEC record iff no still-registered service uses the host name (contents: `C08_goodbyes`) — is multicast
+by each of the three steps.  `_partial`; what is **assumed**, hypothesis by hypothesis:
+* `hrun` already contains the three blocks `.task oid (some 0) … now / now+125 / now+250` and says they are enabled: that a due task step
+  *is* executed at its due instant is the loop axiom (DESIGN §4; checked on every replayed trace, not proved) — proved here is what the
+  steps emit, and that nothing quiet in between can remove, stop or alter the task;
+* `hm*` (`Block.quietFor`) exclude (a) `_close` before the third goodbye — the input class of the known finding `C08:goodbyes-cut-by-close`
+  (`done` makes `async_send` a no-op); (b) a second `async_unregister_service` of the *same object* and foreign steps of its goodbye tasks —
+  not a finding: with two sequences of one object in flight the blocks `.task oid (some 0) ad due` do not say whose step they are (the
+  machine identifies a task by object, TTL and due time); the harness generates double unregisters and pairs each goodbye with its call;
+* `hfresh` (no goodbye task of this object pending at the call) — the same identification issue, not a finding;
+* the run is a run of the *machine*, in which an object is never mutated under its tasks.  Over the extended machine `Host.xrun`, where a
+  re-registration may rename the object meanwhile (D27), the full statement is `C08_goodbyes_run_full` (refuted for the code before the
+  repair: `…_refuted_without_snapshot`). -/
 theorem C08_goodbyes_run_partial (h0 : Host) (hnd : h0.done = false) (s : Svc) (oid : Nat) (now : Int)
     (hfresh : h0.tasks.filter (isBye oid) = []) (mid0 mid1 mid2 : List Block)
     (hm0 : ∀ b ∈ mid0, b.quietFor oid = true) (hm1 : ∀ b ∈ mid1, b.quietFor oid = true) (hm2 : ∀ b ∈ mid2, b.quietFor oid = true)
@@ -401,6 +419,14 @@ theorem C08_closed_silent : ∀ (bs : List Block) (h h' : Host) (out : List Pkt)
 about the wrapper's shape (translated leaf); the threads are exercised by the harness' `sync` stream, not modelled. -/
 theorem C08_sync_unregister_waits : syncUnregisterGoodbyesOnReturn = 3 := by
   simp [syncUnregisterGoodbyesOnReturn, sync_wrappers_await.1, Zc.GenFacts.Register.broadcast_count_eq]
+
+/-- the context managers close through the public close calls — `AsyncZeroconf.__aexit__` awaits `async_close`, `Zeroconf.__exit__` calls
+`close` — so `C08_close_goodbyes_partial` / `C08_sync_close_goodbyes_partial` also cover `async with` / `with`; and `async_unregister_service`
+calls `set_server_if_missing` (a copy with `server=None` can be handed to it).  Translated call pins; the harness closes 30 % of its
+instances through `AsyncZeroconf.__aexit__` and unregisters `server=None` services through fresh copies. -/
+theorem C08_context_exit_closes :
+    Gen.Register.aexit_calls_async_close = true ∧ Gen.Register.exit_calls_close = true ∧ Gen.Register.unregister_sets_server = true :=
+  context_exit_closes
 
 /-- an info whose records cannot be put on the wire never reaches the registry: `async_update_service` and `async_register_service` run the
 dry-run encoding (which raises to the caller) before `registry.async_update` / `async_add`.  The blocks `update` / `register` of the machine
